@@ -153,8 +153,8 @@ func (ex *Exec) jump(fr *Frame, to *ssa.BasicBlock) {
 			fr.visits = map[*ssa.BasicBlock]int{}
 		}
 		fr.visits[to]++
-		if fr.visits[to] > 100000 && ex.ownPkg(pkgOf(fr.fn)) && !strings.HasPrefix(fr.fn.Name(), "H_") && !strings.HasPrefix(fr.fn.Name(), "verif") {
-			ex.end(OutDeadlock, "livelock: loop in "+fr.fn.String()+" does not terminate (more than 100000 iterations in one call)")
+		if fr.visits[to] > 5000 && ex.ownPkg(pkgOf(fr.fn)) && !strings.HasPrefix(fr.fn.Name(), "H_") && !strings.HasPrefix(fr.fn.Name(), "verif") {
+			ex.end(OutDeadlock, "livelock: loop in "+fr.fn.String()+" does not terminate (more than 5000 iterations in one call)")
 		}
 	}
 }
